@@ -1512,6 +1512,22 @@ pub fn indexed_expectation(env: &Env, x: &D, y: &D) -> Option<D> {
         }
         return None;
     }
+    // a record with nothing but an index signature, picked by string-like keys: the index value type
+    if let D::Object { props, index: Some(v) } = r.head(x) {
+        fn stringish(d: &D) -> bool {
+            match d {
+                D::Str | D::StrLit(_) | D::Tpl(_) => true,
+                D::Union(ms) => !ms.is_empty() && ms.iter().all(stringish),
+                _ => false,
+            }
+        }
+        // (value types that admit null / undefined are left out: the engine and the validators read "nullish" differently,
+        // see Corrections)
+        if props.is_empty() && stringish(y) && r.member(v, &JsVal::Null) == Tri::No && r.member(v, &JsVal::Undef) == Tri::No {
+            return Some((**v).clone());
+        }
+        return None;
+    }
     let k = match y {
         D::StrLit(k) => k,
         _ => return None,
@@ -1745,7 +1761,28 @@ impl Check for C07 {
             x = if s.chance(1, 2) { inter } else { D::Union(vec![inter, mk(s, &["id", "x", "role"][..nc])]) };
             keyof_targeted = true;
         }
+        // indexed access into a record that has nothing but an index signature, by a key type that is not a literal: string,
+        // a template literal type, a union of a literal and a template - every such key is answered by the index signature
+        let mut record_key: Option<D> = None;
+        if op == "indexed" && indexed_key.is_none() && indexed_tuple.is_none() && s.chance(1, 3) {
+            use crate::den::TplPart;
+            let v = match s.below(4) {
+                0 => D::Bool,
+                1 => D::Num,
+                2 => D::Union(vec![D::StrLit("a".into()), D::StrLit("b".into())]),
+                _ => D::obj(vec![("a", D::Str, false)]),
+            };
+            x = D::Object { props: vec![], index: Some(Box::new(v)) };
+            let tpl = D::Tpl(vec![TplPart::Lit("on_".into()), TplPart::Str]);
+            record_key = Some(match s.below(4) {
+                0 => D::Str,
+                1 => tpl,
+                2 => D::Union(vec![D::StrLit("a".into()), tpl]),
+                _ => D::Tpl(vec![TplPart::Str, TplPart::Lit("-".into()), TplPart::Num]),
+            });
+        }
         let y = match (op.as_str(), &x) {
+            ("indexed", _) if record_key.is_some() => record_key.clone().unwrap(),
             ("indexed", _) if indexed_key.is_some() => D::StrLit(indexed_key.clone().unwrap()),
             ("indexed", _) if indexed_tuple.is_some() => D::NumLit(indexed_tuple.unwrap().to_string()),
             ("diff", D::Union(ms)) if s.chance(2, 3) => {
@@ -1793,7 +1830,7 @@ impl Check for C07 {
             }
             values.push(JsVal::num("0"));
         }
-        let source_level = s.chance(1, 3) || indexed_key.is_some() || keyof_targeted;
+        let source_level = s.chance(1, 3) || indexed_key.is_some() || keyof_targeted || record_key.is_some();
         serde_json::to_value(C07Case { env, x, y, op, values, source_level }).unwrap()
     }
     fn exec(&self, case: &Value, ctx: &mut Ctx) -> Outcome {
@@ -1936,7 +1973,9 @@ impl C07 {
                 _ => return,
             },
             "indexed" => match indexed_expectation(&case.env, &case.x, &case.y) {
-                Some(_) => ("indexed", vec![("X".into(), case.x.clone())]),
+                Some(_) if matches!(case.y, D::StrLit(_) | D::NumLit(_)) => ("indexed", vec![("X".into(), case.x.clone())]),
+                // a key type that is not a literal is declared as an alias of its own
+                Some(_) => ("indexed", vec![("X".into(), case.x.clone()), ("Y".into(), case.y.clone())]),
                 None => return,
             },
             _ => return,
@@ -1962,7 +2001,7 @@ impl C07 {
         let expr = match expr_kind {
             "exclude" => "Exclude<X, Y>".to_string(),
             "keyof" => "keyof X".to_string(),
-            _ => format!("X[{}]", match &case.y { D::StrLit(k) => crate::render::ts_string(k), D::NumLit(n) => n.clone(), _ => unreachable!() }),
+            _ => format!("X[{}]", match &case.y { D::StrLit(k) => crate::render::ts_string(k), D::NumLit(n) => n.clone(), _ => "Y".to_string() }),
         };
         // two more semantic computations in the same compilation (each re-materialises a named operand, with its own
         // recursive helpers when the operand is recursive): Exclude<T, never> is T itself
